@@ -7,6 +7,7 @@ from props import race_common as rc
 from props.c04 import static_gate  # noqa: F401  (atomic-region reduction of the racing-threads model)
 
 ID = "C09"
+LOG_LEVEL_INVARIANT = True      # (harness/vp.py: a sample of the cases again with logging at DEBUG; same observables)
 RUN_MODULE = "RunC09"
 RULE = ("one case = a history of 2-6 runs on one real recorder (successful, raising, interrupted, discarded, sampled out, "
         "save failing, replay of a missing id, replay with missing keys / key-creation errors, replay whose playback function "
